@@ -456,30 +456,32 @@ theorem run_safe_skip (s : Str) (f : Html.Frame) (fs : List Html.Frame) (h : tit
     simp only [run, step_skip_safe h0 hr ha hl hn, pushStrKids]
     exact run_safe cs _ fs (by simpa [titleInert] using hcs)
 
-theorem raw_html (tag s : Str) (htag : tag ∈ [tScript, tStyle, tTextarea]) (hne : s ≠ []) :
+theorem sDiv_ne_textarea : sDiv ≠ tTextarea := by decide
+
+theorem raw_html (tag s : Str) (htag : tag ∈ [tScript, tStyle]) (hne : s ≠ []) :
     macroHtml [.elem sDiv [] [.elem tag [] [.text s]]] =
       ('<' :: sDiv ++ '>' :: '<' :: tag ++ ['>']) ++ (s ++ ('<' :: '/' :: tag ++ '>' :: '<' :: '/' :: sDiv ++ ['>'])) ∧
     macroHtml [.elem sDiv [] [.elem tag [] [.block s]]] =
       ('<' :: sDiv ++ '>' :: '<' :: tag ++ ['>']) ++ (s ++ ('<' :: '/' :: tag ++ '>' :: '<' :: '/' :: sDiv ++ ['>'])) := by
   simp only [List.mem_cons, List.not_mem_nil, or_false] at htag
-  rcases htag with rfl | rfl | rfl <;>
+  rcases htag with rfl | rfl <;>
     simp [macroHtml, expandKids, expand, isInert, inertNode, inertKids, inertHtml, inertNodeHtml, inertKidsHtml, inertAttrs,
       expKidsHtml, expHtml, builderAttrs, sortAttrs, attrsHtml, plainPart, classBuf, styleBuf, textHtml, hne,
+      elemBody_eq sDiv _ (Or.inl sDiv_ne_textarea),
+      elemBody_eq tScript _ (Or.inl (show tScript ≠ tTextarea from by decide)),
+      elemBody_eq tStyle _ (Or.inl (show tStyle ≠ tTextarea from by decide)),
+      show tScript ≠ tTextarea from by decide, show tStyle ≠ tTextarea from by decide,
       show isSvgTag tScript = false from by decide, show isMathTag tScript = false from by decide,
       show isSvgTag tStyle = false from by decide, show isMathTag tStyle = false from by decide,
-      show isSvgTag tTextarea = false from by decide, show isMathTag tTextarea = false from by decide,
       show macroIsVoid tScript = false from by decide, show macroIsVoid tStyle = false from by decide,
-      show macroIsVoid tTextarea = false from by decide, show macroIsVoid sDiv = false from by decide,
+      show macroIsVoid sDiv = false from by decide,
       show macroEscapes tScript = false from by decide, show macroEscapes tStyle = false from by decide,
-      show macroEscapes tTextarea = false from by decide,
       show isVoid tScript = false from by decide, show isVoid tStyle = false from by decide,
-      show isVoid tTextarea = false from by decide, show isVoid sDiv = false from by decide,
+      show isVoid sDiv = false from by decide,
       show escapeChildren tScript = false from by decide, show escapeChildren tStyle = false from by decide,
-      show escapeChildren tTextarea = false from by decide, show escapeChildren sDiv = true from by decide]
+      show escapeChildren sDiv = true from by decide]
 
-
-theorem raw_parse (tag s : Str) (htag : tag ∈ [tScript, tStyle, tTextarea]) (h : titleInert s = true) (hne : s ≠ [])
-    (hlf : s.head? ≠ some cLf) :
+theorem raw_parse (tag s : Str) (htag : tag ∈ [tScript, tStyle]) (h : titleInert s = true) (hne : s ≠ []) :
     parse (('<' :: sDiv ++ '>' :: '<' :: tag ++ ['>']) ++ (s ++ ('<' :: '/' :: tag ++ '>' :: '<' :: '/' :: sDiv ++ ['>']))) =
       some [.elem sDiv [] [.elem tag [] [.text s]]] := by
   have hpost : ('<' :: '/' :: tag ++ '>' :: '<' :: '/' :: sDiv ++ ['>']) =
@@ -489,7 +491,7 @@ theorem raw_parse (tag s : Str) (htag : tag ∈ [tScript, tStyle, tTextarea]) (h
   unfold parse initState
   rw [hpost, run_append ('<' :: sDiv ++ '>' :: '<' :: tag ++ ['>']) _]
   simp only [List.mem_cons, List.not_mem_nil, or_false] at htag
-  rcases htag with rfl | rfl | rfl
+  rcases htag with rfl | rfl
   · have h1 : run ⟨.text, [rootFrame]⟩ ('<' :: sDiv ++ '>' :: '<' :: tScript ++ ['>']) =
         some ⟨.text, [⟨tScript, [], []⟩, ⟨sDiv, [], []⟩, rootFrame]⟩ := by rfl
     rw [h1, Option.bind_some, run_append s _, run_safe s _ _ h, Option.bind_some, hk,
@@ -500,12 +502,6 @@ theorem raw_parse (tag s : Str) (htag : tag ∈ [tScript, tStyle, tTextarea]) (h
         some ⟨.text, [⟨tStyle, [], []⟩, ⟨sDiv, [], []⟩, rootFrame]⟩ := by rfl
     rw [h1, Option.bind_some, run_append s _, run_safe s _ _ h, Option.bind_some, hk,
       run_append ('<' :: '/' :: tStyle ++ ['>']) _, run_rawEnd (tag := tStyle) (by decide) .text (Or.inl rfl) _ _ _ rfl, Option.bind_some,
-      run_endTag (by rfl) hdiv]
-    simp [emitEnd, finish, rootFrame, sDiv]
-  · have h1 : run ⟨.text, [rootFrame]⟩ ('<' :: sDiv ++ '>' :: '<' :: tTextarea ++ ['>']) =
-        some ⟨.textSkipLf, [⟨tTextarea, [], []⟩, ⟨sDiv, [], []⟩, rootFrame]⟩ := by rfl
-    rw [h1, Option.bind_some, run_append s _, run_safe_skip s _ _ h hne hlf, Option.bind_some, hk,
-      run_append ('<' :: '/' :: tTextarea ++ ['>']) _, run_rawEnd (tag := tTextarea) (by decide) .text (Or.inl rfl) _ _ _ rfl, Option.bind_some,
       run_endTag (by rfl) hdiv]
     simp [emitEnd, finish, rootFrame, sDiv]
 
@@ -523,12 +519,11 @@ theorem raw_denote (tag s : Str) (htag : tag ∈ [tScript, tStyle, tTextarea]) (
       show escapeChildren tScript = false from by decide, show escapeChildren tStyle = false from by decide,
       show escapeChildren tTextarea = false from by decide, show escapeChildren sDiv = true from by decide]
 
-/-- the statement: a `script` / `style` / `textarea` element with ONE string child free of `<`, `&`, NUL, CR
-(and not starting with a line feed, which `<textarea>` drops) renders that string verbatim on both paths —
-static literal (inert path, unescaped by the macro's no-escape list) and `{block}` (builder path, unescaped
-by tachys' `ESCAPE_CHILDREN = false`) — and reads back unchanged. -/
+/-- the statement: a `script` / `style` element with ONE string child free of `<`, `&`, NUL, CR renders that
+string verbatim on both paths — static literal (inert path, unescaped by the macro's no-escape list) and
+`{block}` (builder path, unescaped by tachys' `ESCAPE_CHILDREN = false`) — and reads back unchanged. -/
 def C18_rawtext_single_stmt : Prop :=
-  ∀ (tag s : Str), tag ∈ [tScript, tStyle, tTextarea] → titleInert s = true → s ≠ [] → s.head? ≠ some cLf →
+  ∀ (tag s : Str), tag ∈ [tScript, tStyle] → titleInert s = true → s ≠ [] →
     normalize (parse (macroHtml [.elem sDiv [] [.elem tag [] [.text s]]])) =
       some (denote [.elem sDiv [] [.elem tag [] [.text s]]]) ∧
     normalize (parse (macroHtml [.elem sDiv [] [.elem tag [] [.block s]]])) =
@@ -537,14 +532,110 @@ def C18_rawtext_single_stmt : Prop :=
 /-- formerly OPEN; SVG elements (foreign content, outside `parse`'s subset) and raw-text elements with
 attributes / several children remain covered by the correspondence run only -/
 theorem C18_rawtext_single : C18_rawtext_single_stmt := by
-  intro tag s htag h hne hlf
+  intro tag s htag h hne
   obtain ⟨e1, e2⟩ := raw_html tag s htag hne
-  obtain ⟨d1, d2, n⟩ := raw_denote tag s htag hne
-  have p := raw_parse tag s htag h hne hlf
+  have htag3 : tag ∈ [tScript, tStyle, tTextarea] := by
+    simp only [List.mem_cons, List.not_mem_nil, or_false] at htag ⊢
+    rcases htag with h | h <;> simp [h]
+  obtain ⟨d1, d2, n⟩ := raw_denote tag s htag3 hne
+  have p := raw_parse tag s htag h hne
   rw [e1, e2, p, d1, d2]
   simp [normalize, n]
 
 example : titleInert ['i','f',' ','(','a',' ','>',' ','b',')',' ','{','}','"'] = true := by decide
+
+/-! ## `<textarea>` with one string child: escaped on both paths (tachys 7006223 / 01b809d, macro fix-c18-5) -/
+
+theorem textarea_html (s : Str) (hne : s ≠ []) :
+    macroHtml [.elem sDiv [] [.elem tTextarea [] [.text s]]] =
+      ('<' :: sDiv ++ '>' :: '<' :: tTextarea ++ ['>']) ++
+        (textareaBody true true s ++ ('<' :: '/' :: tTextarea ++ '>' :: '<' :: '/' :: sDiv ++ ['>'])) ∧
+    macroHtml [.elem sDiv [] [.elem tTextarea [] [.block s]]] =
+      ('<' :: sDiv ++ '>' :: '<' :: tTextarea ++ ['>']) ++
+        (textareaBody true true s ++ ('<' :: '/' :: tTextarea ++ '>' :: '<' :: '/' :: sDiv ++ ['>'])) := by
+  have e : elemBody tTextarea s = textareaBody true true s := by
+    simp [elemBody, textareaEscaped, textareaLfGuard]
+  simp [macroHtml, expandKids, expand, isInert, inertNode, inertKids, inertHtml, inertNodeHtml, inertKidsHtml, inertAttrs,
+    expKidsHtml, expHtml, builderAttrs, sortAttrs, attrsHtml, plainPart, classBuf, styleBuf, textHtml, hne, allLits, litConcat, e,
+    elemBody_eq sDiv _ (Or.inl sDiv_ne_textarea),
+    show isSvgTag tTextarea = false from by decide, show isMathTag tTextarea = false from by decide,
+    show macroIsVoid tTextarea = false from by decide, show macroIsVoid sDiv = false from by decide,
+    show isVoid tTextarea = false from by decide, show isVoid sDiv = false from by decide,
+    show escapeChildren tTextarea = false from by decide, show escapeChildren sDiv = true from by decide]
+
+theorem run_skip_ne {st : List Html.Frame} {x : Char} {xs : Str} (hx : x ≠ cLf) :
+    run ⟨.textSkipLf, st⟩ (x :: xs) = run ⟨.text, st⟩ (x :: xs) := by
+  simp [run, step, hx]
+
+theorem run_skip_lf {st : List Html.Frame} {xs : Str} :
+    run ⟨.textSkipLf, st⟩ (cLf :: xs) = run ⟨.text, st⟩ xs := by
+  simp [run, step, show cLf ≠ cCr from by decide]
+
+theorem escapeText_head (c : Char) (cs : Str) (hc : c ≠ cLf) :
+    ∃ x xs, escapeText (c :: cs) = x :: xs ∧ x ≠ cLf := by
+  by_cases h1 : c = '&'
+  · subst h1
+    exact ⟨'&', ['a','m','p',';'] ++ escapeText cs, by simp [escapeText, escapeWith, entityOf, textTable, assoc], by decide⟩
+  by_cases h2 : c = '<'
+  · subst h2
+    exact ⟨'&', ['l','t',';'] ++ escapeText cs, by simp [escapeText, escapeWith, entityOf, textTable, assoc], by decide⟩
+  by_cases h3 : c = '>'
+  · subst h3
+    exact ⟨'&', ['g','t',';'] ++ escapeText cs, by simp [escapeText, escapeWith, entityOf, textTable, assoc], by decide⟩
+  · exact ⟨c, escapeText cs, by simp [escapeText, escapeWith, entityOf, textTable, assoc, h1, h2, h3], hc⟩
+
+/-- the parser, positioned directly after `<textarea>`, reads the repaired body back as exactly `s` -/
+theorem run_textareaBody (s : Str) (hs : clean s = true) (hne : s ≠ []) (f : Html.Frame) (fs : List Html.Frame)
+    (hm : modeOfTag f.tag = .rcdata) :
+    run ⟨.textSkipLf, f :: fs⟩ (textareaBody true true s) =
+      some ⟨.text, { f with kidsRev := pushStrKids s f.kidsRev } :: fs⟩ := by
+  have hesc := run_escapeText s f fs (Or.inr hm) hs
+  cases s with
+  | nil => exact absurd rfl hne
+  | cons c cs =>
+    by_cases hc : c = cLf
+    · subst hc
+      have : textareaBody true true (cLf :: cs) = cLf :: escapeText (cLf :: cs) := by
+        simp [textareaBody, show cLf = cLf' from rfl]
+      rw [this, run_skip_lf, hesc]
+    · have : textareaBody true true (c :: cs) = escapeText (c :: cs) := by
+        have : ¬ (c = cLf') := hc
+        simp [textareaBody, this]
+      obtain ⟨x, xs, hx, hne⟩ := escapeText_head c cs hc
+      rw [this, hx, run_skip_ne hne, ← hx, hesc]
+
+theorem textarea_parse (s : Str) (hs : clean s = true) (hne : s ≠ []) :
+    parse (('<' :: sDiv ++ '>' :: '<' :: tTextarea ++ ['>']) ++
+        (textareaBody true true s ++ ('<' :: '/' :: tTextarea ++ '>' :: '<' :: '/' :: sDiv ++ ['>']))) =
+      some [.elem sDiv [] [.elem tTextarea [] [.text s]]] := by
+  have hpost : ('<' :: '/' :: tTextarea ++ '>' :: '<' :: '/' :: sDiv ++ ['>']) =
+      ('<' :: '/' :: tTextarea ++ ['>']) ++ ('<' :: '/' :: sDiv ++ ['>']) := by simp
+  have hk : pushStrKids s [] = [.text s] := pushStrKids_fresh s [] hne rfl
+  have hdiv : tagCharsOK sDiv = true := by decide
+  have h1 : run ⟨.text, [rootFrame]⟩ ('<' :: sDiv ++ '>' :: '<' :: tTextarea ++ ['>']) =
+      some ⟨.textSkipLf, [⟨tTextarea, [], []⟩, ⟨sDiv, [], []⟩, rootFrame]⟩ := by rfl
+  unfold parse initState
+  rw [hpost, run_append ('<' :: sDiv ++ '>' :: '<' :: tTextarea ++ ['>']) _, h1, Option.bind_some,
+    run_append (textareaBody true true s) _, run_textareaBody s hs hne _ _ (by decide), Option.bind_some, hk,
+    run_append ('<' :: '/' :: tTextarea ++ ['>']) _,
+    run_rawEnd (tag := tTextarea) (by decide) .text (Or.inl rfl) _ _ _ rfl, Option.bind_some, run_endTag (by rfl) hdiv]
+  simp [emitEnd, finish, rootFrame, sDiv]
+
+/-- **`<textarea>` text**: for EVERY string without NUL/CR — `<`, `&`, `</textarea>`, a leading line feed
+included — the static literal (inert path) and the `{block}` (builder path) render the same bytes, and the
+textarea's value reads back as exactly that string. -/
+theorem C18_textarea_single (s : Str) (hs : clean s = true) (hne : s ≠ []) :
+    macroHtml [.elem sDiv [] [.elem tTextarea [] [.text s]]] = macroHtml [.elem sDiv [] [.elem tTextarea [] [.block s]]] ∧
+    normalize (parse (macroHtml [.elem sDiv [] [.elem tTextarea [] [.text s]]])) =
+      some (denote [.elem sDiv [] [.elem tTextarea [] [.text s]]]) ∧
+    normalize (parse (macroHtml [.elem sDiv [] [.elem tTextarea [] [.block s]]])) =
+      some (denote [.elem sDiv [] [.elem tTextarea [] [.block s]]]) := by
+  obtain ⟨e1, e2⟩ := textarea_html s hne
+  obtain ⟨d1, d2, n⟩ := raw_denote tTextarea s (by simp) hne
+  have p := textarea_parse s hs hne
+  refine ⟨by rw [e1, e2], ?_, ?_⟩
+  · rw [e1, p, d1]; simp [normalize, n]
+  · rw [e2, p, d2]; simp [normalize, n]
 
 /-! ## regression witnesses: the compile-time printer before fix-c18-1, -3, -4 (`inertHtmlOld`) -/
 
@@ -590,6 +681,23 @@ theorem C18_empty_text_regression :
     normalize (parse (inertHtml (.elem sP [] [.text []]))) = some [.elem sP [] [.text [' ']]] ∧
     denote [.elem sP [] [.text []]] = [.elem sP [] [.text [' ']]] ∧
     findingClassOld [.elem sP [] [.text []]] = some 3 := by
+  decide
+
+/-- F-C18-5 (`textarea-static`, repaired by fix-c18-5): since tachys escapes the text of `<textarea>` (7006223),
+the builder path renders the literal `&lt;` as `&amp;lt;` (value `&lt;`, what the template says) while the old
+compile-time printer still wrote it raw (value `<`); the repaired printer escapes it like the builder path. -/
+theorem C18_textarea_static_regression :
+    isInert (.elem tTextarea [] [.text ['&','l','t',';']]) = true ∧
+    normalize (parse (inertHtmlOld5 (.elem tTextarea [] [.text ['&','l','t',';']]))) =
+      some [.elem tTextarea [] [.text ['<']]] ∧
+    normalize (parse (macroHtml [.elem tTextarea [] [.text ['&','l','t',';']]])) =
+      some [.elem tTextarea [] [.text ['&','l','t',';']]] ∧
+    normalize (parse (inertHtml (.elem tTextarea [] [.text ['&','l','t',';']]))) =
+      some [.elem tTextarea [] [.text ['&','l','t',';']]] ∧
+    denote [.elem tTextarea [] [.text ['&','l','t',';']]] = [.elem tTextarea [] [.text ['&','l','t',';']]] ∧
+    -- a leading line feed: dropped by the parser on the old static path, kept (doubled) on both paths now
+    normalize (parse (inertHtmlOld5 (.elem tTextarea [] [.text [cLf, 'x']]))) = some [.elem tTextarea [] [.text ['x']]] ∧
+    normalize (parse (inertHtml (.elem tTextarea [] [.text [cLf, 'x']]))) = some [.elem tTextarea [] [.text [cLf, 'x']]] := by
   decide
 
 /-- the three old disagreements refute the old versions of `C18_paths_agree` -/
